@@ -7,7 +7,7 @@ def run(chk):
     thorough = chk.tier == "thorough"
     chk.lean(thorough_checker=thorough)
     allops = []
-    for variant in ("vsbx", "noop", "dylib", "noop_hooks"):
+    for variant in ("vsbx", "noop", "dylib", "noop_hooks", "noop_in", "noop_out"):
         binp, log = cc.build(variant)
         if binp is None:
             chk.fail(f"harness h_calls ({variant}) does not compile against the current headers", {"log_tail": log[-3000:]}, found=False)
@@ -33,7 +33,7 @@ def run(chk):
     chk.cov["distinct_nontrivial"] = len(set(allops))
     chk.cov["input_distribution"] = {"trees": len(allops), "with_fault": sum(1 for o in allops if any(f" {x} " in o for x in "abr"))}
     chk.cov["rule"] = ("random call trees (depth <= 4, width <= 3, two sandboxes) with RLBOX_TRANSITION_ACTION_IN/OUT logging (kind, function name / callback key, per-sandbox state) and "
-                       "RLBOX_MEASURE_TRANSITION_TIMES on, half of them with one injected abort (argument conversion, callback body, result conversion), plus a fixed tree with a fault at every "
+                       "RLBOX_MEASURE_TRANSITION_TIMES on (plus builds with the hooks only, with only the IN hook and with only the OUT hook), half of them with one injected abort (argument conversion, callback body, result conversion), plus a fixed tree with a fault at every "
                        "position in turn; oracle: stack automaton for the bracket grammar with payload matching + one timing record per crossing")
     chk.add_samples([{"tree": o} for o in allops[:3]])
     chk.cov["trusted_base"] += ["C19: timing values themselves are not compared, only the number, kind and identity of the records"]
@@ -41,7 +41,7 @@ def run(chk):
 
 def replay(chk, rp):
     op = rp.get("op") or rp["disagreements"][0]["op"]
-    variant = "vsbx" if op.startswith("tree ") else "noop_hooks" if op.startswith("treenh ") else "noop"
+    variant = "vsbx" if op.startswith("tree ") else "noop_hooks" if op.startswith("treenh ") else "noop_in" if op.startswith("treeni ") else "noop_out" if op.startswith("treeno ") else "noop"
     binp, log = cc.build(variant)
     core.differential(chk, [op], binp, cc.oracle_c19, label="replay")
     return chk.finish()
